@@ -236,9 +236,17 @@ Section Ops.
   Qed.
 
   (* ---- rolling a segment ---- *)
+  (* the segments after checkAndPerformSplit, as the in-memory model (Log.Model.check_split) has them *)
+  Definition split_segs (segs : list seg) : list seg :=
+    match rev segs with
+    | [] => segs
+    | a :: _ => if p_maxb p <=? s_pos a then segs ++ [mkSeg (s_next a) []] else segs
+    end.
+
   Definition rolled (s : st) (d1 : disk) : Prop :=
     Good (mkSt d1 (s_hw s)) /\ content d1 = content (s_disk s) /\ d_ep d1 = d_ep (s_disk s) /\
-    m_next (d_active d1) = next_of s /\ d_hw d1 = d_hw (s_disk s).
+    m_next (d_active d1) = next_of s /\ d_hw d1 = d_hw (s_disk s) /\
+    segs_of d1 = split_segs (segs_of (s_disk s)).
 
   Lemma content_snoc_empty pre b i : concat (map m_recs (pre ++ [mkM (mkSeg b []) i])) = concat (map m_recs pre).
   Proof. rewrite map_app, concat_app. cbn. apply app_nil_r. Qed.
@@ -247,11 +255,17 @@ Section Ops.
     seq (Image s o keep) (fun d => d = s_disk s) sp (rolled s).
   Proof.
     intros G. destruct (good_active s G) as (pre & a & E & Ha & Hidx & Hnx & H0 & Hpre & Hbelow).
-    assert (Hrolled0 : rolled s (s_disk s)).
-    { split; [destruct s; exact G|]. repeat split; reflexivity. }
+    assert (Hsplit_form : split_segs (segs_of (s_disk s)) =
+              if p_maxb p <=? m_pos a then segs_of (s_disk s) ++ [mkSeg (m_next a) []] else segs_of (s_disk s)).
+    { unfold split_segs, segs_of. rewrite E, map_app, rev_app_distr. cbn [map rev app]. rewrite s_pos_fsize.
+      unfold next_of in Hnx. rewrite Ha in Hnx. rewrite Hnx. reflexivity. }
     unfold split_effs. rewrite Ha. destruct (Z.leb_spec (p_maxb p) (m_pos a)) as [Hfull|Hroom].
-    2:{ exists []. split; [reflexivity|]. apply (seq_conseq (Image s o keep) (fun d => d = s_disk s) _ (fun d => d = s_disk s) _ []);
+    2:{ assert (Hrolled0 : rolled s (s_disk s)).
+        { split; [destruct s; exact G|]. repeat split; try reflexivity. rewrite Hsplit_form. destruct (Z.leb_spec (p_maxb p) (m_pos a)); [lia|reflexivity]. }
+        exists []. split; [reflexivity|]. apply (seq_conseq (Image s o keep) (fun d => d = s_disk s) _ (fun d => d = s_disk s) _ []);
           [auto|intros d ->; exact Hrolled0|apply seq_nil; intros d ->; apply good_image; exact G]. }
+    assert (Hsplit_full : split_segs (segs_of (s_disk s)) = segs_of (s_disk s) ++ [mkSeg (m_next a) []]).
+    { rewrite Hsplit_form. destruct (Z.leb_spec (p_maxb p) (m_pos a)); [reflexivity|lia]. }
     pose proof (g_wf _ G) as Hw. unfold segs_of in Hw.
     assert (Hina : In a (d_segs (s_disk s))) by (rewrite E; apply in_or_app; right; left; reflexivity).
     assert (Hsa : sorted_from (m_base a) (m_recs a)) by (apply (wf_sorted _ Hw (m_seg a)); apply in_map; exact Hina).
@@ -304,7 +318,8 @@ Section Ops.
     apply (seq_conseq (Image s o keep) (fun d => d = dB) _ (fun d => d = dB) _); [auto| |apply seq_point; intros d ->; apply HimgN; right; reflexivity].
     intros d ->. unfold rolled.
     assert (Hact : d_active dB = n1) by (unfold d_active, dB; cbn [d_segs with_main]; apply last_last).
-    split; [|split; [unfold content, dB; cbn [d_segs with_main]; apply content_snoc_empty|split; [reflexivity|split; [rewrite Hact; unfold next_of; fold d0; rewrite Ha; reflexivity|reflexivity]]]].
+    split; [|split; [unfold content, dB; cbn [d_segs with_main]; apply content_snoc_empty|split; [reflexivity|split; [rewrite Hact; unfold next_of; fold d0; rewrite Ha; reflexivity|split; [reflexivity|]]]]].
+    2:{ change (segs_of dB = split_segs (segs_of d0)). rewrite Hsplit_full. unfold segs_of, dB. cbn [d_segs with_main]. rewrite map_app. reflexivity. }
     split; cbn [s_disk s_hw]; unfold dB; cbn [d_segs with_main d_orph d_ep d_hw].
     - destruct (d_segs d0); discriminate.
     - apply HwN.
@@ -330,11 +345,22 @@ Section Ops.
   Lemma fsize_pos_ne rs : rs <> [] -> 0 < fsize rs.
   Proof. intros Hne. pose proof (fsize_nonneg rs). destruct (Z.eq_dec (fsize rs) 0) as [E|N]; [apply fsize_zero in E; contradiction|lia]. Qed.
 
+  Lemma upd_last_snoc {A} (f : A -> A) l x : upd_last f (l ++ [x]) = l ++ [f x].
+  Proof.
+    induction l as [|y t IH]; [reflexivity|]. cbn [app]. destruct (t ++ [x]) as [|z u] eqn:E; [destruct t; discriminate|].
+    change (upd_last f (y :: z :: u)) with (y :: upd_last f (z :: u)). rewrite IH. reflexivity.
+  Qed.
+
+  (* the segments and the cache after a write, as the in-memory model (Log.Model.write) has them *)
+  Definition written (d1 : disk) (rs : list rec) (d : disk) : Prop :=
+    segs_of d = upd_last (fun a => mkSeg (s_base a) (s_recs a ++ rs)) (segs_of d1) /\
+    d_ep d = cache_assign_all (d_ep d1) rs /\ d_hw d = d_hw d1.
+
   Lemma write_seq H d1 rs (R : disk -> Prop) :
     Good (mkSt d1 H) -> rs <> [] -> sorted_from (m_next (d_active d1)) rs -> ep_mono (cache_latest_epoch (d_ep d1)) rs ->
     (forall d, Mid H d -> (content d = content d1 \/ content d = content d1 ++ rs) -> R d) ->
     seq R (fun d => d = d1) (write_effs fixed (d_ep d1) (m_base (d_active d1)) rs)
-        (fun d => Good (mkSt d H) /\ content d = content d1 ++ rs).
+        (fun d => Good (mkSt d H) /\ content d = content d1 ++ rs /\ written d1 rs d).
   Proof.
     intros G Hne Hsort Hmono HR.
     destruct (good_active _ G) as (pre & a & E & Ha & Hidx & Hnx & H0 & Hpre & Hbelow). cbn [s_disk] in *.
@@ -415,7 +441,9 @@ Section Ops.
     apply (seq_app R _ _ (fun d => d = dL)); [apply seq_point; intros d ->; exact HRL|].
     apply (seq_app R _ _ (fun d => d = dI)); [apply seq_one; [intros d ->; exact HRL|intros d ->; exact EI|intros d ->; exact HRI]|].
     apply (seq_conseq R (fun d => d = dI) _ (fun d => d = dI) _); [auto| |apply seq_point; intros d ->; exact HRI].
-    intros d ->. split; [exact HgoodI|unfold dI, aI; apply HcX].
+    intros d ->. split; [exact HgoodI|split; [unfold dI, aI; apply HcX|]].
+    unfold written, segs_of, dI. cbn [set_segs d_segs d_ep d_hw dE with_ep]. rewrite E, !map_app. cbn [map].
+    rewrite upd_last_snoc. repeat split; reflexivity.
   Qed.
 
   (* ---- the operations, one by one ---- *)
@@ -426,7 +454,9 @@ Section Ops.
   Qed.
 
   Definition appended (s : st) (rs : list rec) (d : disk) : Prop :=
-    Good (mkSt d (s_hw s)) /\ content d = content (s_disk s) ++ rs.
+    Good (mkSt d (s_hw s)) /\ content d = content (s_disk s) ++ rs /\
+    segs_of d = upd_last (fun a => mkSeg (s_base a) (s_recs a ++ rs)) (split_segs (segs_of (s_disk s))) /\
+    d_ep d = cache_assign_all (d_ep (s_disk s)) rs /\ d_hw d = d_hw (s_disk s).
 
   Lemma write_op_seq s o rs keep : Good s -> incoming s o = rs -> rs <> [] ->
     sorted_from (next_of s) rs -> ep_mono (cache_latest_epoch (d_ep (s_disk s))) rs ->
@@ -437,10 +467,11 @@ Section Ops.
   Proof.
     intros G Hinc Hne Hsort Hmono. destruct (split_seq s o keep G) as (sp & Esp & Hseq). exists sp. split; [exact Esp|]. cbn zeta.
     destruct (seq_post_eq _ _ _ _ Hseq) as [Hseq' Hroll]. set (d1 := run_effs (s_disk s) sp) in *.
-    destruct Hroll as (G1 & Hc1 & Hep1 & Hnx1 & Hhw1). split; [exact Hnx1|].
+    destruct Hroll as (G1 & Hc1 & Hep1 & Hnx1 & Hhw1 & Hsg1). split; [exact Hnx1|].
     apply (seq_app _ _ _ (fun d => d = d1)); [exact Hseq'|]. rewrite <- Hep1.
-    apply (seq_conseq (Image s o keep) (fun d => d = d1) _ (fun d => Good (mkSt d (s_hw s)) /\ content d = content d1 ++ rs) _); [auto| |].
-    - intros d [A B]. split; [exact A|rewrite B, Hc1; reflexivity].
+    apply (seq_conseq (Image s o keep) (fun d => d = d1) _ (fun d => Good (mkSt d (s_hw s)) /\ content d = content d1 ++ rs /\ written d1 rs d) _); [auto| |].
+    - intros d (A & B & (W1 & W2 & W3)). split; [exact A|split; [rewrite B, Hc1; reflexivity|]].
+      split; [rewrite W1, Hsg1; reflexivity|split; [rewrite W2, Hep1; reflexivity|rewrite W3; exact Hhw1]].
     - apply (write_seq (s_hw s) d1 rs); [exact G1|exact Hne|rewrite Hnx1; exact Hsort|rewrite Hep1; exact Hmono|].
       intros d Hm Hc. split; [exact Hm|]. rewrite Hc1 in Hc. split.
       + intros x Hx. destruct Hc as [Hc|Hc]; rewrite Hc in Hx; [left; exact Hx|]. apply in_app_or in Hx. rewrite Hinc. exact Hx.
